@@ -57,3 +57,5 @@ PROP = {'title': 'bitfield is observationally a set of enumerators',
                  'depth-3 expression trees are enumerated modulo identical operand storage (operators are pure functions of their operands)',
                  'hash is only required to be equal for equal sets; collisions between different sets are counted as information',
                  'underlying_value and output are not part of the statement and not checked']}
+
+PROP['rule'] += ' underlying_value (single-word bitfields): bit i <=> enumerator i, and equal for equal member sets, checked for every result that goes through expect().'
